@@ -59,15 +59,15 @@ TEXT = {
         'design_ref': 'DESIGN.md §4 C13',
     },
     'C07': {
-        'text': 'Partial, bounded where stated. Verus proves the three length-prefixed vector encoders for any item type and count (prefix == bytes produced, overflow => error). Contracts "decode is total; an accepted string re-encodes to itself; encoded_len() equals the bytes produced; value round-trips" are discharged by Kani on the real codecs: integers and length-prefixed vectors (prefix full-domain), field elements of the three Montgomery fields (canonical range, mask, little-endian; complete), Prio3 messages and Poplar1 sketch/state tags at one instance each (bounded; the structure is instance-independent), Poplar1AggregationParam::encoded_len for every level (complete).',
+        'text': 'Partial, bounded where stated. Verus proves the three length-prefixed vector encoders for any item type and count (prefix == bytes produced, overflow => error) and the vector decoders for any bytes and length field (exact chain of item decodings, cursor advanced by exactly the vector, no spurious refusal), with the vector round trip as a lemma over the two contracts. Contracts "decode is total; an accepted string re-encodes to itself; encoded_len() equals the bytes produced; value round-trips" are discharged by Kani on the real codecs: integers and length-prefixed vectors (prefix full-domain), field elements of the three Montgomery fields (canonical range, mask, little-endian; complete), Prio3 messages and Poplar1 sketch/state tags at one instance each (bounded; the structure is instance-independent), Poplar1AggregationParam::encoded_len for every level (complete).',
         'note': 'Not decided: Field255-bearing messages, IdpfPublicShare bit packing, ping-pong/Prio2 (see C12, C19). Message-level harnesses use the identity instance of the Montgomery abstraction.',
-        'technique': 'assume-guarantee contract harnesses on the real codecs (Kani/CBMC), symbolic byte strings + function contracts on the extracted vector encoders (Verus)',
+        'technique': 'assume-guarantee contract harnesses on the real codecs (Kani/CBMC), symbolic byte strings + function contracts with loop invariants on the extracted vector encoders and decoders, round-trip lemma (Verus)',
         'design_ref': 'DESIGN.md §4 C07',
     },
     'C08': {
-        'text': 'Partial, bounded in input size. For the decoders listed in the evidence every panic/overflow/out-of-bounds/unwrap obligation that Kani generates is discharged for arbitrary bytes up to the stated size with all header fields full-domain (every usize length, every tag byte, every aggregator id); over-long length prefixes are rejected before any allocation. One known finding: decode_fixlen_items does not terminate for a zero-width item type.',
+        'text': 'Partial. Verus proves the generic vector decoders (decode_fixlen_items, decode_u8/u16/u32_items) free of overflow and out-of-bounds access for every input, position and length field, with the length validated before any item is read (no bound). Otherwise bounded in input size: for the decoders listed in the evidence every panic/overflow/out-of-bounds/unwrap obligation that Kani generates is discharged for arbitrary bytes up to the stated size with all header fields full-domain (every usize length, every tag byte, every aggregator id); over-long length prefixes are rejected before any allocation. One known finding: decode_fixlen_items does not terminate for a zero-width item type.',
         'note': 'Bitvec- and Field255-touching decoders are out of reach (DESIGN.md R3).',
-        'technique': 'verifier-generated safety obligations of the decoder bodies (Kani/CBMC) under symbolic input bytes',
+        'technique': 'verifier-generated safety obligations of the decoder bodies (Kani/CBMC) under symbolic input bytes + function contracts with loop invariants on the extracted vector decoders (Verus)',
         'design_ref': 'DESIGN.md §4 C08',
     },
     'C16': {
